@@ -416,7 +416,29 @@ func Populate(r *rand.Rand, items []fix.Item, o *Opts, p float64, first, firstAl
 				n := 1 + r.Intn(3)
 				for k := 0; k < n; k++ {
 					e := el.AsTemplate()
-					s.Entries = append(s.Entries, Populate(r, e, o, p, firstAlways, firstAlways))
+					if r.Intn(3) == 0 {
+						// the route the generated code takes for "add the entry, then fill it in": the entry is a component whose
+						// item list the group is given; values are set in place and one slot is replaced through Component.Set
+						comp := fix.NewComponent(e...)
+						el.AddEntry(comp.Items())
+						sh := Populate(r, comp.Items(), o, p, firstAlways, firstAlways)
+						for j, it := range comp.Items() {
+							if kv, ok := it.(*fix.KeyValue); ok && r.Intn(2) == 0 {
+								nk := fix.NewKeyValue(kv.Key, NewValue(wireKind(kv.Value)))
+								sh[j].Text = SetValue(r, nk, o)
+								sh[j].Valid = true
+								comp.Set(j, nk)
+								break
+							}
+						}
+						s.Entries = append(s.Entries, sh)
+						continue
+					}
+					sh := Populate(r, e, o, p, firstAlways, firstAlways)
+					if k > 0 && r.Intn(2) == 0 {
+						alignEntry(e, sh, s.Entries[k-1])
+					}
+					s.Entries = append(s.Entries, sh)
 					el.AddEntry(e)
 				}
 			}
@@ -424,6 +446,61 @@ func Populate(r *rand.Rand, items []fix.Item, o *Opts, p float64, first, firstAl
 		}
 	}
 	return out
+}
+
+// flatLeaves lists the field shadows of an entry in wire order (components are entered, groups are not).
+func flatLeaves(sh []*S, out *[]*S) bool {
+	for _, x := range sh {
+		switch x.Kind {
+		case 'K':
+			*out = append(*out, x)
+		case 'C':
+			if !flatLeaves(x.Kids, out) {
+				return false
+			}
+		default:
+			return false // a nested group: offsets behind it are not computed here
+		}
+	}
+	return true
+}
+
+// alignEntry makes the first (string) field of an entry carry text that spells `K=` for a later field K of the same
+// template, placed so that it ends at exactly the offset at which K's value started in the previous entry — the
+// adversarial alignment for any decoder that remembers where it found a field last time.
+func alignEntry(e []fix.Item, sh []*S, prev []*S) {
+	kv, ok := e[0].(*fix.KeyValue)
+	if !ok || len(sh) == 0 || sh[0].Kind != 'K' {
+		return
+	}
+	var pl []*S
+	flatLeaves(prev, &pl)
+	off := 1 // the entry slice starts with the delimiter
+	for j, l := range pl {
+		if !l.Valid || len(l.Text) == 0 {
+			continue
+		}
+		if j > 0 && l.Tag != kv.Key {
+			// candidate K: its value started at off + len(tag) + 1 in the previous entry
+			pv := off + len(l.Tag) + 1
+			x := pv - (len(kv.Key) + len(l.Tag) + 3)
+			if x >= 0 && x < 200 {
+				text := strings.Repeat("a", x) + l.Tag + "=zz"
+				switch v := kv.Value.(type) {
+				case *fix.String:
+					_ = v.Set(text)
+				case *fix.Raw:
+					_ = v.Set([]byte(text))
+				default:
+					return
+				}
+				sh[0].Text = []byte(text)
+				sh[0].Valid = true
+				return
+			}
+		}
+		off += len(l.Tag) + 1 + len(l.Text) + 1
+	}
 }
 
 // Mutate applies typed Set calls to a random subset of the populated fields of an already populated
